@@ -146,7 +146,10 @@ def one_run(ctx, sc, idx, keep_lf=False):
     sites = n2.shank_map(sc["map"], sc["n"], rng, sc["nshank"]) if kind == "NP2.4" else None
     binf, d, info = n2.make_recording(root, sc["ns"], rng, kind=kind, n=sc["n"], sites=sites, gainset=tuple(sc["gain"]),
                                       content=sc.get("content", "random"))
-    status, events, conv, exc = n2.convert(binf, sc["w"])
+    if sc.get("reuse_first_w"):
+        status, events, conv, exc = n2.convert_reuse(binf, sc["reuse_first_w"], sc["w"])
+    else:
+        status, events, conv, exc = n2.convert(binf, sc["w"])
     tr = {"ns": sc["ns"], "w": sc["w"], "status": status if status is not None else -9, "exc": exc[:120],
           "wins": n2.window_events(events, lambda e: e["first"]), "final": None}
     if status == 1 and not exc:
@@ -171,7 +174,7 @@ def nstates(t):
 def scenarios(ctx):
     scs = []
     seed = ctx.seed * 100000
-    maps = ["dense4", "blocks", "interleaved", "random", "singleton"]
+    maps = ["dense4", "blocks", "interleaved", "random", "singleton", "noshank0", "gap"]
     ws = [1200, 2400, 3612]
     lens_small = [600, 1199, 1200, 1201, 1825, 2399, 2401, 3000, 3613, 4037, 5000]
     # 8-channel recordings: volume (every map kind x gain x window x awkward lengths)
@@ -187,11 +190,13 @@ def scenarios(ctx):
     # full size: 384 channels, all 65536 values present, every gain setting
     big = []
     for j, g in enumerate(n2.GAINSETS):
-        for m in (["dense4", "random"] if ctx.quick else maps):
+        for m in (["dense4", "random", "noshank0"] if ctx.quick else maps):
             k += 1
             big.append({"n": 384, "nshank": 4, "map": m, "gain": list(g), "w": ws[(j + k) % 3], "ns": [2999, 4037, 3613][k % 3],
                         "seed": seed + k})
-    return scs + big
+    # the same converter object re-parameterised and re-run with overwrite (process(overwrite) is a method argument)
+    reuse = [dict(s, reuse_first_w=[2400, 3612, 1200][i % 3], seed=s["seed"] + 50000) for i, s in enumerate(scs[:: max(1, len(scs) // 6)][:6])]
+    return scs + big + reuse
 
 
 def run(ctx, clauses=C03_CLAUSES, pid="C03", extra_scenarios=None, post=None):
@@ -269,7 +274,8 @@ def validate(ctx, traces, label):
 def report(ctx, scs, traces, verdicts, clauses, pid):
     for v in verdicts:
         sc, t = scs[v["index"]], traces[v["index"]]
-        desc = f"n={sc['n']} map={sc['map']}/{sc['nshank']} gain={sc['gain']} w={sc['w']} ns={sc['ns']}"
+        desc = f"n={sc['n']} map={sc['map']}/{sc['nshank']} gain={sc['gain']} w={sc['w']} ns={sc['ns']}" + (
+            f" (same converter object, after a first process() with nwindow={sc['reuse_first_w']})" if sc.get("reuse_first_w") else "")
         mine = [c for c in v["prop"].split("|") if c and c.split(":")[0] in clauses
                 and not (sc.get("kind") == "NP2.1" and c.split(":")[0] in ("APPrefix", "APComplete", "APFile"))]
         if mine:
